@@ -602,6 +602,8 @@ theorem parseLoop_closed {enc : Encoding} {code : Str} {info : List Str} {rest c
 inductive ContLine (code : Str) : Str → Str → Prop
   | hdr (l : Str) : ContLine code (code ++ '-' :: l) ('-' :: rstrip l)
   | body (l : Str) : ContLine code (' ' :: l) (rstrip (' ' :: l))
+  /-- a body line as another server may write it: any text whose first three characters are not all digits -/
+  | raw (l : Str) (h : isDigit ((rstrip l).take 3) = false) : ContLine code l (rstrip l)
 
 theorem isDigit_take3_space (l : Str) : isDigit ((rstrip (' ' :: l)).take 3) = false := by
   rw [rstrip_cons_space_char]
@@ -626,6 +628,11 @@ theorem cont_step {enc : Encoding} {code text entry : Str} {ch : Bytes} (hc : Di
     intro info R
     rw [parseLoop_open ho, parseLine1_written he]
     simp [isDigit_take3_space, List.take_append_drop]
+  | raw _ h =>
+    refine ⟨(rstrip text).drop 3, (rstrip text).take 3, by simp [Open, h], ?_⟩
+    intro info R
+    rw [parseLoop_open ho, parseLine1_written he]
+    simp [h, List.take_append_drop]
 
 theorem cont_run {enc : Encoding} {code : Str} (hc : Digits3 code) (steps : List (Str × Str × Bytes))
     (h : ∀ p ∈ steps, ContLine code p.1 p.2.1 ∧ encode enc (p.1 ++ eol) = some p.2.2)
@@ -833,6 +840,31 @@ theorem parse_written_multi {enc : Encoding} {code : Str} (hc : Digits3 code) (l
   simp only [List.map_cons, List.map_append, List.map_nil, List.cons_append, List.append_assoc,
     List.nil_append] at this ⊢
   rw [this, final_step hc (encLine_spec hf) ho']
+  simp
+
+/-- a multi-line reply in any spelling RFC 959 allows: `code-l0`, then any continuation lines (`code-…`, indented,
+    or raw text that does not start with three digits), then `code t` -/
+theorem parse_foreign_multi {enc : Encoding} {code : Str} (hc : Digits3 code) (l0 : Str) (mid : List (Str × Str))
+    (t : Str) (hmid : ∀ p ∈ mid, ContLine code p.1 p.2)
+    (he : ∀ x ∈ (code ++ '-' :: l0) :: mid.map (·.1) ++ [code ++ ' ' :: t],
+      (encode enc (x ++ eol)).isSome = true) (R : List Bytes) :
+    parseResponse enc
+        (((code ++ '-' :: l0) :: mid.map (·.1) ++ [code ++ ' ' :: t]).map (encLine enc) ++ R) =
+      (.ok (code, ('-' :: rstrip l0) :: mid.map (·.2) ++ [lastInfo t]), R) := by
+  have ho : Open ('-' :: rstrip l0) code := by simp [Open, startsWith]
+  obtain ⟨r', c', ho', e⟩ := cont_run (enc := enc) hc
+    (mid.map fun p => (p.1, p.2, encLine enc p.1))
+    (by
+      intro q hq
+      obtain ⟨p, hp, rfl⟩ := List.mem_map.mp hq
+      exact ⟨hmid p hp, encLine_spec (he p.1 (by simp; right; left; exact ⟨p.2, hp⟩))⟩) ho
+  have hf := he (code ++ ' ' :: t) (by simp)
+  have h0 := he (code ++ '-' :: l0) (by simp)
+  have := e ['-' :: rstrip l0] (encLine enc (code ++ ' ' :: t) :: R)
+  simp only [List.map_cons, List.map_append, List.map_nil, List.cons_append, List.append_assoc,
+    List.nil_append, List.map_map, Function.comp_def] at this ⊢
+  rw [parseResponse_first (encLine_spec h0), rstrip_code_dash, hc.take, hc.drop, this,
+    final_step hc (encLine_spec hf) ho']
   simp
 
 theorem parse_written_bad {enc : Encoding} {code : Str} (hc : Digits3 code) (l0 : Str) (mid : List Str)
